@@ -32,6 +32,8 @@ def run(ctx, rep):
     tight_length_guards(ctx.prog, rep)
     overlong_warning(ctx.prog, rep)
     demo_finish(ctx.prog, rep)
+    from .common import check_refusal_inventory
+    check_refusal_inventory(ctx.prog, rep, "R6-refusal-inventory", ("libtw2_packer::",))
 
 
 def _err_returns(body):
